@@ -31,7 +31,7 @@ class Def:
         self.naming = "arrow"
 
 
-def gen_def(rng, max_proc=6, max_flows=12, max_stocks=3, hostile_names=False, n_time=None, self_loops=0.0, time_letter_variants=0.0, vary_items=False, big_system=0.0):
+def gen_def(rng, max_proc=6, max_flows=12, max_stocks=3, hostile_names=False, n_time=None, self_loops=0.0, time_letter_variants=0.0, vary_items=False, big_system=0.0, lookalike_dim_names=0.0):
     d = Def()
     nt = int(rng.integers(3, 6)) if n_time is None else n_time
     others = [l for l in "rmges"]
@@ -55,6 +55,13 @@ def gen_def(rng, max_proc=6, max_flows=12, max_stocks=3, hostile_names=False, n_
         else:
             items = list(items[:nt]) if l == "t" else list(items[: int(rng.integers(1 if rng.random() < 0.15 else 2, len(items) + 1))])
         d.dims.append((l, n, items, dt))
+    if lookalike_dim_names and rng.random() < lookalike_dim_names:
+        # dimension names that look alike: two names differing in upper / lower case only, or a dimension called like a value column
+        nt_ = [j for j, x in enumerate(d.dims) if x[0] != "t"]
+        if len(nt_) >= 2 and rng.random() < 0.6:
+            d.dims[nt_[1]] = (d.dims[nt_[1]][0], d.dims[nt_[0]][1].upper() if d.dims[nt_[0]][1] != d.dims[nt_[0]][1].upper() else d.dims[nt_[0]][1].lower(), d.dims[nt_[1]][2], d.dims[nt_[1]][3])
+        elif nt_:
+            d.dims[nt_[0]] = (d.dims[nt_[0]][0], str(rng.choice(["Value", "VALUE", " value"])), d.dims[nt_[0]][2], d.dims[nt_[0]][3])
     # the order of the system's dimension list is arbitrary
     if rng.random() < 0.5:
         d.dims = [d.dims[i] for i in rng.permutation(len(d.dims))]
